@@ -368,6 +368,27 @@ func TestMutRequest(t *testing.T) {
 		ctl := drawCtl(t, reqCtl)
 		seed := seedRequest(t, "seed")
 		body, n := mutate(t, seed, func() []byte { return seedRequest(t, "other") }, m)
+		if rapid.IntRange(0, 3).Draw(t, "align") == 0 {
+			// a line end next to the end of the read buffer, often after a short last token
+			if rapid.Bool().Draw(t, "shortVersion") {
+				if i := bytes.IndexByte(body, '\n'); i >= 0 {
+					if j := bytes.LastIndexByte(body[:i], ' '); j >= 0 {
+						tok := rapid.SampledFrom([]string{"1.1", ".", "1.", "H.1", "", "HTTP/1.", ".1"}).Draw(t, "versionToken")
+						body = append(append(append([]byte(nil), body[:j+1]...), tok...), body[i:]...)
+						if !rapid.Bool().Draw(t, "bareLF") {
+							body = insertAt(body, j+1+len(tok), []byte{'\r'})
+						}
+					}
+				}
+			}
+			var idx byte
+			body, idx = alignHTTP(t, body)
+			ctl[0] = ctl[0]&^0x18 | idx<<3
+			if rapid.Bool().Draw(t, "unchunked") {
+				ctl[1] = 0
+			}
+			hx.Class("request/aligned")
+		}
 		hx.Class(fmt.Sprintf("request/mutations=%d", n))
 		runCase(t, targetRequest, ctl, body)
 	})
@@ -400,6 +421,15 @@ func TestMutResponse(t *testing.T) {
 		}
 		seed := seedResponse(t, "seed")
 		body, n := mutate(t, seed, func() []byte { return seedResponse(t, "other") }, m)
+		if rapid.IntRange(0, 3).Draw(t, "align") == 0 {
+			var idx byte
+			body, idx = alignHTTP(t, body)
+			ctl[0] = ctl[0]&^0x0c | idx<<2
+			if rapid.Bool().Draw(t, "unchunked") {
+				ctl[1] = 0
+			}
+			hx.Class("response/aligned")
+		}
 		hx.Class(fmt.Sprintf("response/mutations=%d", n))
 		runCase(t, targetResponse, ctl, body)
 	})
